@@ -150,6 +150,10 @@ Poly Normaliser::norm(int t, bool fp) {
     int v = ev(x.a[0]);
     if (v >= 0) { nanGuards++; r = norm(x.a[v ? 1 : 2], fp); } else r = atom(t);
   }
+  else if (x.op == TT.OP_FABS && fp) { // |p| keyed by the polynomial of the argument (|p| == |-p|)
+    Poly pa = norm(x.a[0], true); Poly key = pa; if (!key.empty() && key.begin()->second.n < 0) { key.clear(); padd(key, pa, -1); }
+    bool sq = pa.size() == 1 && pa.begin()->second.n > 0; if (sq) for (auto &ve : pa.begin()->first) if (ve.second % 2) sq = false;
+    if (sq) r = pa; else r = atom(polyAtom("abspoly", key, x.a[0], x.bytes)); }
   else if (op == "abs" && !fp) {
     Poly pa = norm(x.a[0], false); bool sq = pa.size() == 1 && pa.begin()->second.n > 0;
     if (sq) for (auto &ve : pa.begin()->first) if (ve.second % 2) sq = false;
@@ -764,8 +768,25 @@ static int resolveSel(int t, const std::map<int, bool> &val, std::unordered_map<
 
 static bool polyHasAtoms(const Poly &p) { for (auto &kv : p) for (auto &ve : kv.first) if (TT.t[ve.first].op != TT.OP_SYM) return true; return false; }
 
+// Predicates with a tolerance (isequal, issymmetric, isorthogonal ...) compare real-valued expressions; two comparison atoms whose
+// operands are the same polynomials over the reals are the same atom, however the sums were associated.
+static int unifyCmpAtoms(int t, Normaliser &N, std::map<std::string, int> &reps, std::unordered_map<int, int> &memo) {
+  auto it = memo.find(t); if (it != memo.end()) return it->second;
+  Term x = TT.t[t]; int r = t;
+  if (x.op == TT.OP_SYM || x.op == TT.OP_PTR || x.a.empty()) { memo[t] = t; return t; }
+  const std::string op = OPS.name(x.op);
+  if (op.compare(0, 5, "fcmp.") == 0 && x.a.size() == 2) {
+    Poly pa = N.norm(x.a[0], true), pb = N.norm(x.a[1], true);
+    if (!N.capped && !N.overflow) { std::string key = op + "|" + polyStr(pa, 1u << 30) + "|" + polyStr(pb, 1u << 30); auto f = reps.find(key); if (f == reps.end()) { reps[key] = t; r = t; } else r = f->second; memo[t] = r; return r; }
+  }
+  bool ch = false; for (auto &a : x.a) { int na = unifyCmpAtoms(a, N, reps, memo); if (na != a) { a = na; ch = true; } }
+  if (ch) r = TT.mk(x.op, x.a, x.k, x.bytes);
+  memo[t] = r; return r;
+}
+
 CmpResult Comparer::compare(int a, int b, const std::string &mode, bool fp, int bytes) {
   CmpResult res;
+  if (mode == "ALG" && !fp && bytes == 1) { std::map<std::string, int> reps; std::unordered_map<int, int> memo; int ua = unifyCmpAtoms(a, N, reps, memo), ub = unifyCmpAtoms(b, N, reps, memo); return compare(ua, ub, "EXACT", false, 1); }
   if (a == b) { res.how = "identical"; nCanon++; return res; }
   { const Term &ta = TT.t[a]; if (ta.op == TT.OP_UNDEF || ta.op == TT.OP_TOP) { res.v = V_VIOLATION; res.how = "value is undefined/unknown"; res.got = TT.str(a); res.expected = TT.str(b, 3); return res; } }
   if (mode == "EXACTDIV") { Canon CD; CD.divSelfIsOne = true; if (CD.canon(a) == CD.canon(b)) { res.how = "canonical (x/x = 1 on the domain of definition)"; nCanon++; return res; } }
